@@ -740,3 +740,32 @@ def check_conn_cache(chk, rule):
                        detail='' if ok else 'get_k0_conn stores its result in self.k0_conn whatever the flag: after one raw request every later calc_kT / calc_fint / calc_k0 adds the upper triangle only',
                        sample='PanelAssembly.%s: %s' % (name, norm(c)))
     chk.floor(rule + ' get_k0_conn call sites', n, 2)
+
+
+def check_assembly_fint_accumulator(chk, rule):
+    """the numeric kernels return their internal-force vector as a typed memoryview and Panel.calc_fint hands it on
+    unwrapped; a memoryview supports no arithmetic of its own, so whoever sums panel vectors must start from an
+    ndarray (ndarray += memoryview is fine, 0 + memoryview is a TypeError)"""
+    from .panelk import NUM_MODELS
+    mv = []
+    for model, rel in NUM_MODELS.items():
+        src = pyxast.parse(repo_path(rel), REPO).src
+        if re.search(r'cdef\s+double\s*\[\s*:\s*\][^\n]*\bfint\b', src) and re.search(r'^\s*return\s+fint\s*$', src, re.M):
+            mv.append(model)
+    pm = module(PANEL)
+    pf = pm.method('Panel', 'calc_fint')
+    rets = [norm(n.value) for n in ast.walk(pf) if isinstance(n, ast.Return) and n.value is not None]
+    defs = local_defs(pf)
+    wrapped = all(re.match(r'^np\.(asarray|array|ascontiguousarray)\(', norm(v)) for v in defs.get('fint', []) if v is not None) if defs.get('fint') else False
+    passthrough = rets == ['fint'] and not wrapped
+    rel = 'compmech/panel/assembly/assembly.py'
+    am = module(rel)
+    af = am.method('PanelAssembly', 'calc_fint')
+    init = [n for n in af.body if isinstance(n, ast.Assign) and norm(n.targets[0]) == 'fint']
+    got = norm(init[0].value) if init else None
+    nd = bool(init) and re.match(r'^np\.(zeros|zeros_like|empty|array)\(', got or '') is not None
+    ok = nd or not (mv and passthrough)
+    chk.ob(rule, ok, rel, 'PanelAssembly.calc_fint', 'accumulator of the panel internal-force vectors is an ndarray', line=init[0].lineno if init else 0,
+           expected='fint = np.zeros(size, ...) before `fint += p.calc_fint(...)` (the panels return typed memoryviews: %s)' % mv, got='fint = %s' % got,
+           detail='' if ok else 'int 0 += memoryview raises TypeError: PanelAssembly.calc_fint fails for every input',
+           sample='PanelAssembly.calc_fint: fint = %s, then += per panel' % got)
